@@ -19,6 +19,7 @@ import (
 //   consuming   an exit tests len(s) of a header φ s and every way round the loop re-slices
 //               s strictly shorter (s[1:], s[:len(s)-1], …);
 //   iterator    range over a map or a channel (channels: rule H2 / the sender's business);
+//   cursor      an exit asks a cursor Valid() and every way round the loop calls its Next()/Prev();
 //   exit-only   the loop body cannot get back to the header without passing an exit test
 //               whose operands change … (not attempted: goes to the table).
 //
@@ -199,8 +200,51 @@ func (li *loopInfo) classify() (shape string, desc string) {
 		}
 	}
 	var ds []string
+	everyIteration := func(b *ssa.BasicBlock) bool {
+		for _, l := range li.Latch {
+			if !(b == l || b.Dominates(l)) {
+				return false
+			}
+		}
+		return true
+	}
 	for _, ex := range li.exits() {
 		ds = append(ds, T(ex.Cond).String())
+		if !everyIteration(ex.Block) && ex.Block != li.Header {
+			continue // a test that some iterations skip proves nothing
+		}
+		// cursor: the exit asks a cursor whether it is still valid and every way round the
+		// loop advances that cursor (pebble iterators, scanners)
+		if cl, ok := ex.Cond.(*ssa.Call); ok && !cl.Common().IsInvoke() && len(cl.Common().Args) == 1 && strings.HasSuffix(CalleeName(cl.Common()), ").Valid") {
+			recv := cl.Common().Args[0]
+			adv := func(in ssa.Instruction) bool {
+				c2, ok := in.(*ssa.Call)
+				if !ok || len(c2.Common().Args) != 1 || c2.Common().Args[0] != recv {
+					return false
+				}
+				n := CalleeName(c2.Common())
+				return strings.HasSuffix(n, ").Next") || strings.HasSuffix(n, ").Prev")
+			}
+			all := true
+			for _, l := range li.Latch {
+				// every path from the loop body entry to this latch passes an advance: check that
+				// an advancing call's block dominates the latch
+				found := false
+				for b := range li.Blocks {
+					for _, in := range b.Instrs {
+						if adv(in) && (b == l || b.Dominates(l)) {
+							found = true
+						}
+					}
+				}
+				if !found {
+					all = false
+				}
+			}
+			if all {
+				return "cursor", ""
+			}
+		}
 		bo, ok := ex.Cond.(*ssa.BinOp)
 		if !ok {
 			continue
@@ -348,7 +392,7 @@ func checkLoopProgress(c *Ctx, fns []*ssa.Function) {
 			c.Require("C09.H3 loop-progress", construct, site, "every iteration makes progress towards an exit (recognised shape or reviewed argument)", ok, why)
 		}
 	}
-	for _, k := range []string{"counted", "consuming", "iterator", "select", "reviewed-or-open"} {
+	for _, k := range []string{"counted", "consuming", "iterator", "cursor", "select", "reviewed-or-open"} {
 		c.Count("loops: "+k, counts[k])
 	}
 	for i, row := range c09LoopTable {
@@ -356,7 +400,7 @@ func checkLoopProgress(c *Ctx, fns []*ssa.Function) {
 			c.Notes = append(c.Notes, "loop table row no longer matches any loop (stale, harmless): "+row.fn+" {"+row.exits+"}")
 		}
 	}
-	c.MinInstances("C09.H3 loops examined", counts["counted"]+counts["consuming"]+counts["iterator"]+counts["select"]+counts["reviewed-or-open"], 100)
+	c.MinInstances("C09.H3 loops examined", counts["counted"]+counts["consuming"]+counts["iterator"]+counts["cursor"]+counts["select"]+counts["reviewed-or-open"], 100)
 }
 
 // Reviewed termination arguments for loops whose progress is not of a recognised shape.
